@@ -4,6 +4,7 @@ import c11lib as L
 NAME = "nurimisaki"
 MODULE = "cspuz.puzzle.nurimisaki"
 FUNC = "solve_nurimisaki"
+TIER1 = ("Nurimisaki", "solve_nurimisaki_model")
 
 
 def call(mod, pb):
@@ -46,3 +47,21 @@ def tier2(tier, rng):
             yield {"h": h, "w": w, "grid": g}
     for g in L.sample(rng, L.all_grids(2, 2, _values(2, 2)), 30 if th else 4):
         yield {"h": 2, "w": 2, "grid": g}
+
+
+def tier1_problems(tier, rng):
+    """program-capture tie: every grid of the tiniest boards, random grids on small, non-square and larger boards
+    with numbers from 1 up to beyond the board size (circles on the rim and in corners), boards without cells"""
+    th = tier == "thorough"
+    for (h, w) in [(1, 1), (1, 2), (2, 1)]:
+        for g in L.all_grids(h, w, _values(h, w) + [max(h, w) + 1]):
+            yield {"h": h, "w": w, "grid": g}
+    for (h, w) in [(1, 3), (3, 1), (2, 2)]:
+        for g in L.sample(rng, L.all_grids(h, w, _values(h, w) + [max(h, w) + 1]), 200 if th else 30):
+            yield {"h": h, "w": w, "grid": g}
+    for (h, w) in [(2, 3), (3, 2), (3, 3), (2, 5), (5, 2), (4, 4), (3, 6), (6, 5), (1, 7), (7, 1), (8, 8)]:
+        for p in [0.3, 0.6, 0.8, 0.9] * (3 if th else 1):
+            yield {"h": h, "w": w, "grid": L.random_grid(rng, h, w, _values(h, w) + [max(h, w) + 1], p)}
+        yield {"h": h, "w": w, "grid": [[rng.randint(0, max(h, w) + 1) for _ in range(w)] for _ in range(h)]}
+    for (h, w) in [(0, 0), (0, 2), (2, 0)]:
+        yield {"h": h, "w": w, "grid": [[] for _ in range(h)]}
